@@ -85,7 +85,7 @@ SPECS = {
         "(failure per flavour, two failures, SIGINT, stop(), shutdown() from a thread or a thread payload, payload-raised KeyboardInterrupt) at a seeded or marker-aligned instant; "
         "non-trivial = at least one coroutine payload was running when the trigger fired; "
         "distinct = distinct (trigger, multiset of running payload states, how the run call ended, schedule-trace hash)",
-        6000,
+        9000,
         600000,
     ),
     "C03": _rt(
